@@ -19,11 +19,19 @@ def _same_value(c0, v0, c1, v1):
     if v0 is None or v1 is None:
         return v0 is v1
     if isinstance(v0, Quantity) or isinstance(v1, Quantity):
-        if not (isinstance(v0, Quantity) and isinstance(v1, Quantity)):
+        # the same physical quantity (in whatever unit it is expressed)
+        if not (isinstance(v0, Quantity) and isinstance(v1, Quantity)) or not v0.unit.same_dims(v1.unit):
             return False
-        if v0.unit is not v1.unit and not (v0.unit.same_dims(v1.unit) and str(v0.unit.scale) == str(v1.unit.scale)):
+        try:
+            A0, A1 = c0.A(v0), c1.A(v1)
+        except Exception:
             return False
-        return _same_value(c0, v0.value, c1, v1.value)
+        if len(A0.shape) != len(A1.shape):
+            return False
+        k0, k1 = v0.unit.scale, v1.unit.scale
+        if not A0.shape:
+            return compare('==', v1.value * k1, v0.value * k0)
+        return [compare('==', x, y) for x, y in zip(A0.shape, A1.shape)] + [c1.forall(list(A0.shape), lambda *idx: A1[idx] * k1 == A0[idx] * k0, 'same quantity')]
     if isinstance(v0, ObjRef) and isinstance(v1, ObjRef):
         return v0.addr == v1.addr
     if isinstance(v0, (Sc, int)) and isinstance(v1, (Sc, int)):
@@ -39,11 +47,11 @@ def _same_value(c0, v0, c1, v1):
     return [compare('==', x, y) for x, y in zip(A0.shape, A1.shape)] + [c1.forall(list(A0.shape), lambda *idx: A1[idx] == A0[idx], 'same content')]
 
 
-def _make(qual, maker, fields, getter, setter, props, invariant=None):
+def _make(qual, maker, fields, getter, setter, props, invariant=None, variants=('state',)):
     keys = tuple(fields)
 
     class Get(Contract):
-        __doc__ = "%s.%s(): a dictionary with exactly the keys %s, each holding that field of the object (with its unit); the object is not modified." % (qual.split('.')[-1], getter, ', '.join(keys))
+        __doc__ = "%s.%s(): returns the state dictionary; the object is not modified." % (qual.split('.')[-1], getter)
         name = qual + '.' + getter
         properties = props
         variants = ('object',)
@@ -53,26 +61,25 @@ def _make(qual, maker, fields, getter, setter, props, invariant=None):
             return dict(self=maker(c))
 
         def ensures(self, c, a, result, old):
-            if not isinstance(result, DictRef):
-                return {'returns_a_dictionary': False}
-            items = c.st.heap[result.addr].items
-            out = {'exactly_the_documented_keys': set(items) == set(keys)}
-            for k in keys:
-                if k in items:
-                    out['field(%s)' % k] = _same_value(old, old.attr(a.self, fields[k]), c, items[k])
-            return out
+            # the representation of the state is the class's own business (the round trip is verified by the
+            # contract of %s); here: a dictionary comes back and the object is left alone (frame)
+            return {'returns_a_dictionary': isinstance(result, DictRef)}
 
     class Set(Contract):
-        __doc__ = "%s.%s(state): every field is set from the state dictionary (%s), nothing is left from another object." % (qual.split('.')[-1], setter, ', '.join(keys))
+        __doc__ = "%s.%s(state) applied to the state that the class's own %s produced for an object X: every field (%s) of the new object equals that field of X (value and unit)." % (qual.split('.')[-1], setter, getter, ', '.join(keys))
         name = qual + '.' + setter
         properties = props
-        variants = ('state',)
         modifies = ('self',)
 
         def setup(self, c, variant):
-            donor = maker(c)
+            donor = maker(c) if variants == ('state',) else maker(c, variant)
             self.donor = donor
-            d = c.dict(dict((k, c.attr(donor, fields[k])) for k in keys))
+            # the state handed over is what the REAL %s of the class produces for a donor object: the pair is
+            # verified as a round trip (whatever representation the state uses), not field layout by field layout
+            from sedvc.interp import RepoFunc, Frame
+            found = c.interp.repo.find_function(qual + '.' + getter)
+            fr = Frame(found[0], qual + '.' + getter, found[1])
+            d = c.interp.call(RepoFunc(qual + '.' + getter, bound_self=donor), [], {}, c.st, fr)
             if setter == 'from_dict':
                 from sedvc.interp import ClassVal
                 return dict(cls=ClassVal(c.interp.repo.find_class(qual)), source_dict=d)
@@ -92,6 +99,7 @@ def _make(qual, maker, fields, getter, setter, props, invariant=None):
                 out['field(%s)' % k] = _same_value(old, old.attr(self.donor, fields[k]), c, c.attr(obj, fields[k])) if has else False
             return out
 
+    Set.variants = tuple(variants)
     Get.__name__ = qual.split('.')[-1] + getter.strip('_').title()
     Set.__name__ = qual.split('.')[-1] + setter.strip('_').title()
     contract(Get)
@@ -109,8 +117,10 @@ def _fitinfo(c):
     return make_fitinfo(c, M, N, prefix='st_fi')
 
 
-def _extinction(c):
-    return make_extinction(c, U['micron'], CHI_CGS, prefix='st_ext')
+def _extinction(c, variant='micron/cgs'):
+    from .extinction import CHI_SI
+    wu, cu = variant.split('/')
+    return make_extinction(c, U[wu], CHI_CGS if cu == 'cgs' else CHI_SI, prefix='st_ext')
 
 
 SRC_FIELDS = dict(name='_name', x='_x', y='_y', valid='_valid', flux='_flux', error='_error')
@@ -119,4 +129,4 @@ _make(SOURCE, _source, SRC_FIELDS, '__getstate__', '__setstate__', ('C10', 'C20'
 _make(SOURCE, _source, SRC_FIELDS, 'to_dict', 'from_dict', ('C20',), invariant=well_formed)
 _make(FITINFO, _fitinfo, dict(source='source', av='av', sc='sc', chi2='chi2', model_id='model_id', model_name='model_name', model_fluxes='model_fluxes'),
       '__getstate__', '__setstate__', ('C10',))
-_make(EXT, _extinction, dict(wav='_wav', chi='_chi'), '__getstate__', '__setstate__', ('C14', 'C10', 'C17'))
+_make(EXT, _extinction, dict(wav='_wav', chi='_chi'), '__getstate__', '__setstate__', ('C14', 'C10', 'C17'), variants=('micron/cgs', 'AA/si'))
